@@ -7,6 +7,7 @@ import (
 	"fmt"
 	"hash/fnv"
 	"math"
+	"runtime/debug"
 	"sort"
 	"strings"
 	"time"
@@ -132,6 +133,7 @@ type pendingOp struct {
 type opResult struct {
 	res      *nfsv4.Compound4res
 	panicMsg string
+	stack    string
 }
 
 type quietLogger struct{}
@@ -612,6 +614,7 @@ func (e *env) start(r Req) (p *pendingOp, res *opResult) {
 		defer func() {
 			if x := recover(); x != nil {
 				out.panicMsg = fmt.Sprint(x)
+				out.stack = string(debug.Stack())
 			}
 			p.done <- out
 		}()
@@ -761,7 +764,7 @@ func (e *env) do(r Req) (Rep, int) {
 	}
 	if res.panicMsg != "" {
 		e.dead = true
-		e.tr.Emit(common.Ev{"ev": "panic", "msg": res.panicMsg, "pk": panicKind(res.panicMsg), "req": r, "leaf": e.alloc.snapshot()})
+		e.tr.Emit(common.Ev{"ev": "panic", "msg": res.panicMsg, "pk": panicKind(res.panicMsg), "stack": res.stack, "req": r, "leaf": e.alloc.snapshot()})
 		return Rep{Pre: "PANIC", St: "PANIC"}, 0
 	}
 	rep := e.reduce(&r, p.npre, created, res.res)
@@ -781,7 +784,7 @@ func (e *env) finish(id int) Rep {
 	o := <-p.done
 	if o.panicMsg != "" {
 		e.dead = true
-		e.tr.Emit(common.Ev{"ev": "panic", "msg": o.panicMsg, "pk": panicKind(o.panicMsg), "req": p.req, "leaf": e.alloc.snapshot()})
+		e.tr.Emit(common.Ev{"ev": "panic", "msg": o.panicMsg, "pk": panicKind(o.panicMsg), "stack": o.stack, "req": p.req, "leaf": e.alloc.snapshot()})
 		return Rep{Pre: "PANIC", St: "PANIC"}
 	}
 	rep := e.reduce(&p.req, p.npre, created, o.res)
